@@ -61,6 +61,7 @@ TypedOps ==
   {O("tmake", "ta", "", IntV(2), NilV, NilV, NilV, "", <<>>), Alias("b", "ta")}
   \cup {Write("ta", IntV(i), v) : i \in {0, 2, 3}, v \in {IntV(5), StrV("s"), Flt19}}
   \cup {AppendO("ta", v) : v \in {IntV(5), StrV("s"), Flt19}} \cup {Read("ta", IntV(0)), Read("ta", IntV(2)), Read("b", IntV(0)), O1("len", "ta")}
+  \cup {InO("ta", Flt19), InO("ta", IntV(5)), InO("ta", IntV(1)), InO("ta", StrV("s")), InO("ta", NilV)}
   \cup {O1("tmapnew", "tm")} \cup {MapSet("tm", StrV("k"), v) : v \in {IntV(5), StrV("s"), Flt19}} \cup {MapSet("tm", ListKey, IntV(5))}
   \cup {MapGet_("tm", StrV("k")), MapGet_("tm", StrV("x")), MapGet_("tm", ListKey), MapDel_("tm", StrV("k")), MapDel_("tm", ListKey), O1("len", "tm")}
   \cup {FieldSet("M", V("maplit0", 0, "", 0, 0, 0, 0)), FieldSet("M", V("maplit1", 0, "", 0, 0, 0, 0)), FieldSet("M", IntV(5)),
